@@ -41,24 +41,53 @@ def limit_mem(gb):
     return f
 
 
+def _cbmc_children(pgid):
+    """(pid, rss_kb) of cbmc processes in the process group."""
+    out = []
+    try:
+        txt = subprocess.check_output(["ps", "-eo", "pid,pgid,rss,comm"], text=True)
+    except Exception:
+        return out
+    for line in txt.splitlines()[1:]:
+        f = line.split()
+        if len(f) >= 4 and f[3] == "cbmc" and int(f[1]) == pgid:
+            out.append((int(f[0]), int(f[2])))
+    return out
+
+
 def run(cmd, cwd, logf, timeout, mem_gb=None, env=None):
-    """Run cmd, tee into logf, kill the whole process group on timeout. Returns (rc, timed_out)."""
+    """Run cmd, log into logf, kill the whole process group on timeout. A watchdog kills any
+    single cbmc process whose resident set exceeds mem_gb (Kani then reports that harness as
+    FAILED without a failed check, which the verdict parser counts as inconclusive) - an
+    address-space rlimit would also hit rustc and the Kani driver. Returns (rc, timed_out)."""
     with open(logf, "ab") as lf:
         lf.write(("\n$ " + " ".join(cmd) + "\n").encode())
         lf.flush()
         p = subprocess.Popen(cmd, cwd=cwd, stdout=lf, stderr=subprocess.STDOUT,
-                             env=env or env_base(),
-                             preexec_fn=limit_mem(mem_gb) if mem_gb else os.setsid)
-        try:
-            rc = p.wait(timeout=timeout)
-            return rc, False
-        except subprocess.TimeoutExpired:
+                             env=env or env_base(), preexec_fn=os.setsid)
+        t_end = time.time() + timeout
+        while True:
             try:
-                os.killpg(p.pid, signal.SIGKILL)
-            except ProcessLookupError:
+                rc = p.wait(timeout=4)
+                return rc, False
+            except subprocess.TimeoutExpired:
                 pass
-            p.wait()
-            return -9, True
+            if mem_gb:
+                for pid, rss in _cbmc_children(p.pid):
+                    if rss > mem_gb * 1024 * 1024:
+                        lf.write(("\n[driver] killing cbmc pid %d: rss %.1f GB over the %.1f GB cap\n" % (pid, rss / 1048576.0, mem_gb)).encode())
+                        lf.flush()
+                        try:
+                            os.kill(pid, signal.SIGKILL)
+                        except ProcessLookupError:
+                            pass
+            if time.time() > t_end:
+                try:
+                    os.killpg(p.pid, signal.SIGKILL)
+                except ProcessLookupError:
+                    pass
+                p.wait()
+                return -9, True
 
 
 # ----------------------------------------------------------------------------- scratch crate
@@ -216,7 +245,7 @@ def replay(prop, harness, hk, tgt, logf, timeout=1500):
     cmd = ["cargo", "kani", "-Z", "stubbing", "-Z", "unstable-options", "-Z", "concrete-playback",
            "--concrete-playback=print", "--target-dir", tgt, "--exact", "--harness", harness,
            "--harness-timeout", "%ds" % timeout]
-    rc, to = run(cmd, hk, rlog, timeout + 600, mem_gb=24)
+    rc, to = run(cmd, hk, rlog, timeout + 600, mem_gb=30)
     txt = open(rlog, errors="replace").read()
     m = PLAYBACK_RE.search(txt)
     if not m:
@@ -268,10 +297,11 @@ def check(prop, tier, only=None, keep=False, jobs=None):
     if tier == "thorough":
         filters.append("%s_t_" % prop.lower())
     if only:
-        filters = [only]
+        filters = only.split(",")
     jobs = jobs or int(os.environ.get("VERIF_JOBS", "14" if tier == "quick" else "8"))
     h_timeout = cfg.get("timeout_" + tier, 420 if tier == "quick" else 2400)
-    mem = 16 if tier == "quick" else 28
+    # per-cbmc resident-set cap: jobs * cap stays below the 62 GB of the sandbox
+    mem = max(3.0, 52.0 / jobs)
 
     builds = cfg.get("builds", [""])  # pilota feature sets
     all_res, inconclusive, violations, knowns, samples = {}, [], [], [], []
